@@ -373,6 +373,22 @@ def run(ch, ctx, fault=None):
             imgs.append(d)
             return d, desc
 
+        def direct_equals_twin(d, spec, got, desc):
+            """formatting an animated image directly renders its current frame, whatever
+            the image was constructed from"""
+            if "twin" not in d or d["fmt"] != "WEBP" or "+A" in (spec or ""):
+                return
+            pil.suspended += 1
+            try:
+                d["twin"].seek(d["image"].tell())
+                ref = str(d["twin"]) if spec is None else format(d["twin"], spec)
+            finally:
+                pil.suspended -= 1
+            ctx.probe("direct_format_equals_twin")
+            check(got == ref, "direct_format_is_not_the_current_frame",
+                  {"op": desc, "frame": d["image"].tell(), "got": got[:160],
+                   "expected": ref[:160]}, "format")
+
         def do_next(itd):
             """one next() on a live iterator, checked against the frame model"""
             im = itd["img"]
@@ -464,7 +480,7 @@ def run(ch, ctx, fault=None):
                 elif op == "str":
                     desc = "str(%s)" % d["desc"]
                     if not d["image"].closed:
-                        str(d["image"])
+                        direct_equals_twin(d, None, str(d["image"]), desc)
                 elif op == "format":
                     spec = ch.pick("spec", ("", "1.1", "<10.^3", "|8.-4#", ">.2##", "#ffffff"))
                     if d["style"] == "iterm2":
@@ -473,7 +489,7 @@ def run(ch, ctx, fault=None):
                         spec += ch.pick("sspec", ("", "+L", "+W", "+Wz5m1c0"))
                     desc = "format(%s, %r)" % (d["desc"], spec)
                     if not d["image"].closed:
-                        format(d["image"], spec)
+                        direct_equals_twin(d, spec, format(d["image"], spec), desc)
                 elif op == "draw":
                     desc = "%s.draw(repeat=1)" % d["desc"]
                     if not d["image"].closed:
